@@ -227,6 +227,8 @@ def make_case(seed, i):
     from .c08 import _rect_nodes
     rng = random.Random('fvmon/C16/%s/%s' % (seed, i))
     desc = gw.gen(rng)
+    if i % 2 == 0:
+        desc["empty_sheet"] = True     # files keep a sheet that holds nothing
     if i % 3 == 0:
         _ranges_over_arrays(rng, desc)
     rects = _rect_nodes(desc)
@@ -373,6 +375,17 @@ def check_case(case, ctx):
             before = snapshot(m.books)
             m.write(m.books, solution=sol)
             judge_books(ctx, w, 'loaded', sol, before, snapshot(m.books))
+            if n == 0 and not spec['O']:
+                # a full solution, first write: the loaded books (they keep sheets the
+                # solution does not touch, e.g. empty ones) saved and compared
+                out = os.path.join(d, 'out-loaded')
+                m.write(m.books, solution=sol, dirpath=out)
+                files = [os.path.join(r_, f) for r_, _, fs in os.walk(out) for f in fs]
+                diff = m.compare(*files, solution=sol)
+                ctx.count('monitor.compare-loaded-books')
+                if diff:
+                    ctx.violation('compare-reports-difference:loaded-books', dict(
+                        w, observed=repr(diff[:3])[:300], accepted=['[]']))
         except Exception as ex:
             ctx.violation('write-raised:loaded:%s' % type(ex).__name__, dict(
                 w, observed='%s: %s' % (type(ex).__name__, str(ex)[:200]),
@@ -508,7 +521,8 @@ def finalize(agg, tier):
                      ('written.reused', 3000), ('written.loaded', 3000),
                      ('written.disk', 5000), ('monitor.untouched-cells', 500),
                      ('monitor.compare-calls', 200), ('monitor.folder-cells', 300),
-                     ('monitor.compare-single-file', 60)):
+                     ('monitor.compare-single-file', 60),
+                     ('monitor.compare-loaded-books', 15)):
         if c.get(k, 0) < floor:
             inc.append('monitor %s saw %d events (< %d)' % (k, c.get(k, 0), floor))
     return {'inconclusive': inc}
